@@ -18,6 +18,7 @@ import Sgz.Model.Header
 import Sgz.Model.Coords
 import Sgz.Model.HeaderReads
 import Sgz.Model.Derived
+import Sgz.Model.Xarray
 /-!
 Line-protocol driver over the executable model (`Sgz/Model`, Mathlib-free).  One request per line, one answer per
 line.  The Python harness sends the same request to the real implementation and diffs canonical answers.
@@ -293,6 +294,33 @@ def optInt (w : String) : Option (Option Int) := if w == "N" then some none else
 
 def showInts (xs : List Int) : String := " ".intercalate (xs.map toString)
 
+/-- `xr N0 N1 N2 K K K` with a key `i:K` (integer) or `s:START:STOP:STEP` (`N` = omitted): per axis the positions held by
+the result, then the box handed to `read_subvolume` (`none` = nothing read) -/
+def handleXr (ws : List String) : String :=
+  let key (w : String) : Option Xarray.Key :=
+    match w.splitOn ":" with
+    | ["i", k] => k.toInt?.map Xarray.Key.idx
+    | ["s", a, b, c] =>
+      match optInt a, optInt b, optInt c with
+      | some a, some b, some c => some (Xarray.Key.sl ⟨a, b, c⟩)
+      | _, _, _ => none
+    | _ => none
+  match ws with
+  | [n0, n1, n2, k0, k1, k2] =>
+    match n0.toNat?, n1.toNat?, n2.toNat?, key k0, key k1, key k2 with
+    | some n0, some n1, some n2, some k0, some k1, some k2 =>
+      let ax (k : Xarray.Key) (n : Nat) : String :=
+        match Xarray.axisPositions k n with
+        | some xs => showInts xs
+        | none => "err"
+      let bx := match Xarray.box k0 k1 k2 n0 n1 n2 with
+        | none => "err"
+        | some none => "none"
+        | some (some ((a0, b0), (a1, b1), (a2, b2))) => s!"{a0} {b0} {a1} {b1} {a2} {b2}"
+      s!"{ax k0 n0} | {ax k1 n1} | {ax k2 n2} | {bx}"
+    | _, _, _, _, _, _ => "bad-op"
+  | _ => "bad-op"
+
 /-- `emul indices S E T LEN`, `emul range A B C`, `emul acc LEN S E T`, `emul line K1,K2,… S E T` (emulator | segyio) -/
 def handleEmul (ws : List String) : String :=
   match ws with
@@ -547,6 +575,7 @@ def handle (line : String) : String :=
   | "io" :: rest => handleIO rest
   | "axes" :: rest => handleAxes rest
   | "emul" :: rest => handleEmul rest
+  | "xr" :: rest => handleXr rest
   | "crop" :: rest => handleCrop rest
   | "reblock" :: rest => handleReblock rest
   | "irr" :: rest => handleIrr rest
